@@ -1,7 +1,7 @@
 SPECIFICATION SpecDump
 CONSTANTS
   MaxE = 3
-  Configs <- CfgConc
+  Configs <- CfgCancelRounds
   KeepHist = TRUE
   GateAtomic = TRUE
   NonIdemRetry = FALSE
